@@ -148,20 +148,21 @@ type client struct {
 	ref    *refConsumer
 	refCID media.CID
 
-	conn     net.Conn // rtsp/tcp, rtsp/udp control connection
-	resps    chan string
-	udp      [4]*net.UDPConn
-	ws       *websocket.Conn // ws-rtsp, wsp control, ws-flv
-	wsData   *websocket.Conn // wsp data channel
-	wmu      sync.Mutex
-	chanID   string
-	cseq     int
-	cancel   context.CancelFunc // http-flv
-	stopped  bool
-	stream   *media.Stream // the stream it attached to
-	genEnd   int           // packets published when its stream was replaced (-1: still current)
-	nonce    []byte
-	attached bool
+	conn        net.Conn // rtsp/tcp, rtsp/udp control connection
+	resps       chan string
+	udp         [4]*net.UDPConn
+	ws          *websocket.Conn // ws-rtsp, wsp control, ws-flv
+	wsData      *websocket.Conn // wsp data channel
+	wmu         sync.Mutex
+	chanID      string
+	cseq        int
+	cancel      context.CancelFunc // http-flv
+	stopped     bool
+	stream      *media.Stream // the stream it attached to
+	noCountWait bool          // a further member of a running multicast proxy adds no consumer to the stream
+	genEnd      int           // packets published when its stream was replaced (-1: still current)
+	nonce       []byte
+	attached    bool
 }
 
 func (c *client) isFLV() bool { return c.kind == 4 || c.kind == 5 }
@@ -555,6 +556,9 @@ func (c *client) attach(stream *media.Stream) error {
 		if resp, ok := c.request(r); !ok200(resp, ok) {
 			return fmt.Errorf("kind %d: request refused: %.40q -> %.60q", c.kind, r, resp)
 		}
+	}
+	if c.noCountWait {
+		return nil
 	}
 	if !waitUntil(3*time.Second, func() bool { return stream.ConsumerCount() == before+1 }) {
 		return fmt.Errorf("kind %d: consumer not registered", c.kind)
